@@ -27,6 +27,9 @@ CHECKS = {
 CHECKS["C02"] = dict(text="The real processQueue is a bounded FIFO from every valid ring-buffer state (push appends at the back or is dropped at the limit, pop takes the front, fails exactly when empty); SPL queues the fall-through task before the new one and drops the new one at the process limit; one real RunCycle from an arbitrary invariant state with 1..2 (thorough 3) warriors equals the reference round-robin cycle (same executed (warrior, pc) pairs in loading order, deaths exactly on empty queues, early stop when one survivor remains among several, completed-cycle count, return value) where the task step on both sides is the real exec (C01 fixes what a task does); Run() from any battle in progress ends in the same state as the cycle-by-cycle driver and terminates within maxCycles+1 iterations. Canary: a reference that counts the unfinished cycle must be refuted.",
              note="Trusted: translator (witness replay), z3 (canary), the reference cycle of DESIGN.md appendix B. Bounds: M in 3..5 (thorough ..8), P 1..2(3), n <= 2 (3), Run: maxCycles <= 3 (5).",
              ref="5/C02")
+CHECKS["C13"] = dict(text="Every sequence of API calls up to the stated depth from a fresh simulator (AddWarrior with symbolic code, SpawnWarrior with index in -2..count+2 and any offset < 2^16, RunCycle, Run, Reset, GetWarrior, GetMem, warrior queries) is executed on the real code with the call chosen nondeterministically: no panic site is reachable, inapplicable calls err / return nil and leave the observable state unchanged, applicable calls match the reference state machine (spawn loads code and queues (off+Start) mod M, RunCycle/Run equal the reference scheduler, Reset clears), Run terminates within maxCycles+1 iterations (unwinding assertion); from an arbitrary non-steppable state (finished, empty or never-started battle, some warriors without a queue) RunCycle and Run change nothing and return; Reset + re-spawn equals a fresh simulator, also after one more cycle.",
+             note="Trusted: translator (witness replay), z3, the reference state machine of DESIGN.md appendix B (steppable = what cmd/vmars guards). Bounds: M=3 (thorough 4), P 1..2, depth 2 from fresh / 1 after a spawned prefix (thorough 3 / 2), code length 1..2. No sampling beyond the exhaustive depth.",
+             ref="5/C13")
 CHECKS = dict(sorted(CHECKS.items()))
 
 NOT_YET = {
